@@ -443,6 +443,18 @@ func VH_Conservation() {
 				} else {
 					lostAny = true
 					lostHere = true
+					// a warning excuses the loss only if it is about this value: the same group with a
+					// plain token in its place keeps the token and draws just as many warnings -> the
+					// warnings are about something else, and the value was rewritten or dropped silently
+					if vParam("attribute_by_value", 0) != 0 && len(ev.Warnings) > 0 {
+						orig := r.data[k]
+						r.data[k] = "zz9"
+						ev1, err1 := CoalesceMessages(build(-1))
+						if err1 == nil && ev1 != nil && vPresent(ev1, r, k, "zz9") {
+							vAssert(len(ev.Warnings) > len(ev1.Warnings), "C09/value-rewritten-and-no-warning-is-about-it")
+						}
+						r.data[k] = orig
+					}
 				}
 			}
 		}
